@@ -87,6 +87,23 @@ def hrule(case):
                     h = nd.Hessian(f, method=method, step=nd.MinStepGenerator(base_step=bs, num_steps=ns, step_ratio=2.0))(x)
                     if not np.max(np.abs(h - H(x))) <= 1e-9:
                         bad.append(dict(method=method, num_steps=ns, base_step=bs, got=np.asarray(h).tolist(), expected=H(x).tolist()))
+        # complex-step Hessian with several user steps: its error series is h^2, h^4, h^6 (not h^4, h^8): three steps of ratio 2 from 0.1
+        fs = lambda x: np.exp(0.9 * x[0] - 0.5 * x[1]) + x[0] * x[1] ** 2
+        Hs = lambda x: np.exp(0.9 * x[0] - 0.5 * x[1]) * np.array([[0.81, -0.45], [-0.45, 0.25]]) + np.array([[0.0, 2 * x[1]], [2 * x[1], 2 * x[0]]])
+        h = nd.Hessian(fs, method='complex', step=nd.MinStepGenerator(base_step=0.1, num_steps=3, step_ratio=2.0))(x)
+        if not np.max(np.abs(h - Hs(x))) <= 1e-6:
+            bad.append(dict(method='complex', steps=[0.4, 0.2, 0.1], got=np.asarray(h).tolist(), expected=Hs(x).tolist(), max_error=float(np.max(np.abs(h - Hs(x))))))
+        # the rule cache: a Hessdiag with a nearby step ratio right after the default one gets ITS rule (cold == warm)
+        import numdifftools.finite_difference as fd
+        for method, order in (('central', 4), ('forward', 2)):
+            g2 = nd.MinStepGenerator(base_step=0.05, step_ratio=1.64, num_steps=6)
+            fd.FD_RULES.clear()
+            cold = nd.Hessdiag(fs, method=method, order=order, step=g2)(x)
+            fd.FD_RULES.clear()
+            nd.Hessdiag(fs, method=method, order=order, step=nd.MinStepGenerator(base_step=0.05, step_ratio=1.6, num_steps=6))(x)
+            warm = nd.Hessdiag(fs, method=method, order=order, step=g2)(x)
+            if not np.array_equal(cold, warm):
+                bad.append(dict(method=method, order=order, what='Hessdiag(step_ratio=1.64) after a call with step_ratio=1.6', warm_cache=np.asarray(warm).tolist(), cold_cache=np.asarray(cold).tolist()))
     if not bad:
         for method in ('central', 'forward', 'complex'):
             r = call(dict(klass='Hessian', method=method, d=3, order=2, variant='plain'))
